@@ -40,6 +40,7 @@ type Config struct {
 	CacheDuration                                        string
 	ErrorURL                                             string
 	NoIDPConfigMetadata                                  bool
+	StoreLookup                                          string // Store.Lookup mode
 }
 
 type EP struct{ Path, URL string }
@@ -129,6 +130,7 @@ func (c Config) AttributeLocation(host string) string {
 // New builds a fresh store and the real provider for cfg.
 func New(cfg Config) (*World, error) {
 	st := NewStore()
+	st.Lookup = cfg.StoreLookup
 	return NewWithStore(cfg, st)
 }
 
